@@ -1,1 +1,229 @@
-// harness file phy_mod (see /verif/DESIGN.md)
+// C16 harnesses: the generic receive helpers of the ProfibusPhy trait (src/phy/mod.rs) over the
+// byte-level harness PHY; as crate::phy::verif.
+
+use super::*;
+use crate::fdl::{Telegram, TelegramTx};
+use crate::verif_support::*;
+
+#[derive(Clone, Copy, PartialEq, Eq)]
+struct Rec {
+    kind: u8,
+    da: u8,
+    sa: u8,
+    fc: u8,
+    plen: usize,
+    is_last: bool,
+}
+
+const NOREC: Rec = Rec { kind: 9, da: 0, sa: 0, fc: 0, plen: 0, is_last: false };
+
+fn rec_of(t: &Telegram, is_last: bool) -> Rec {
+    match t {
+        Telegram::Token(t) => Rec { kind: 0, da: t.da, sa: t.sa, fc: 0, plen: 0, is_last },
+        Telegram::ShortConfirmation(_) => Rec { kind: 1, da: 0, sa: 0, fc: 0, plen: 0, is_last },
+        Telegram::Data(d) => Rec { kind: 2, da: d.h.da, sa: d.h.sa, fc: d.h.fc.to_byte(), plen: d.pdu.len(), is_last },
+    }
+}
+
+/// receive_all_telegrams == iterated decoder: exactly the telegrams the decoder finds one after
+/// the other are handed over, in order, once; `is_last` iff nothing is buffered behind; the result
+/// of the last call is returned iff it was flagged last; undecodable data is discarded entirely,
+/// an incomplete telegram is left in the buffer untouched.
+fn receive_all_vs_decoder<const N: usize>() {
+    let buf: [u8; N] = kani::any();
+    let len: usize = kani::any();
+    kani::assume(len <= N);
+    let mut phy = KPhy::<N, 4>::idle_with(buf, len);
+    let now = crate::time::Instant::ZERO;
+
+    let mut got = [NOREC; 12];
+    let mut ngot = 0usize;
+    let res = phy.receive_all_telegrams(now, |t, is_last| {
+        if ngot < 12 {
+            got[ngot] = rec_of(&t, is_last);
+        }
+        ngot += 1;
+        ngot
+    });
+
+    // reference: decode, hand over, advance
+    let mut off = 0usize;
+    let mut k = 0usize;
+    let mut last_flagged = false;
+    let mut steps = 0;
+    while steps <= N {
+        steps += 1;
+        match Telegram::deserialize(&buf[off..len]) {
+            Some(Ok((t, n))) => {
+                let is_last = off + n == len;
+                assert!(k < ngot && k < 12 && got[k] == rec_of(&t, is_last), "C16/exact: exactly the buffered telegrams are handed to the caller, in order, flagged last iff nothing is buffered behind");
+                k += 1;
+                off += n;
+                last_flagged = is_last;
+                if is_last {
+                    break;
+                }
+            }
+            Some(Err(())) => {
+                off = len; // undecodable data is discarded entirely
+                last_flagged = false;
+                break;
+            }
+            None => {
+                last_flagged = false;
+                break;
+            }
+        }
+    }
+    assert!(ngot == k, "C16/exact: no telegram is handed over twice or invented");
+    assert!(phy.rx_off == off, "C16/no-loss: exactly the bytes of handed-over telegrams (or of undecodable data) are dropped; an incomplete telegram stays buffered");
+    assert!(res.is_some() == (k > 0 && last_flagged), "C16/result: the caller's result is forwarded iff the last telegram was flagged last");
+    if let Some(r) = res {
+        assert!(r == k, "C16/result: the forwarded result is that of the last telegram");
+    }
+    kani::cover!(k == 2 && off < len, "cover: two telegrams followed by an incomplete one");
+    kani::cover!(k >= 1 && off == len && !last_flagged, "cover: telegram followed by garbage");
+    kani::cover!(k == 3, "cover: three telegrams in one buffer");
+}
+
+#[kani::proof]
+#[kani::unwind(12)]
+fn c16_receive_all_vs_decoder_q() {
+    receive_all_vs_decoder::<9>();
+}
+
+#[kani::proof]
+#[kani::unwind(20)]
+fn c16_receive_all_vs_decoder_t() {
+    receive_all_vs_decoder::<16>();
+}
+
+/// receive_telegram: at most the first buffered telegram is handed over.
+#[kani::proof]
+#[kani::unwind(12)]
+fn c16_receive_one_vs_decoder_q() {
+    let buf: [u8; 9] = kani::any();
+    let len: usize = kani::any();
+    kani::assume(len <= 9);
+    let mut phy = KPhy::<9, 4>::idle_with(buf, len);
+    let now = crate::time::Instant::ZERO;
+    let mut calls = 0;
+    let res = phy.receive_telegram(now, |t| {
+        calls += 1;
+        rec_of(&t, false)
+    });
+    match Telegram::deserialize(&buf[..len]) {
+        Some(Ok((t, n))) => {
+            assert!(calls == 1 && res == Some(rec_of(&t, false)) && phy.rx_off == n, "C16/exact: the first buffered telegram is handed over once and exactly its bytes are dropped");
+            kani::cover!(n < len, "cover: more data behind the received telegram");
+        }
+        Some(Err(())) => assert!(calls == 0 && res.is_none() && phy.rx_off == len, "C16/discard: undecodable data is discarded entirely"),
+        None => assert!(calls == 0 && res.is_none() && phy.rx_off == 0, "C16/no-loss: no byte of a still incomplete telegram is dropped"),
+    }
+    assert!(phy.poll_pending_received_bytes(now) == len - phy.rx_off, "C16/pending: the pending byte count is what is left in the buffer");
+}
+
+/// One telegram of a symbolic kind written by the real encoder at `buf[off..]`.
+fn emit(buf: &mut [u8], off: usize) -> (usize, Rec) {
+    let kind: u8 = kani::any();
+    kani::assume(kind <= 2);
+    match kind {
+        0 => {
+            let (da, sa): (u8, u8) = (kani::any(), kani::any());
+            let n = TelegramTx::new(&mut buf[off..]).send_token_telegram(da, sa).bytes_sent();
+            (n, Rec { kind: 0, da, sa, fc: 0, plen: 0, is_last: false })
+        }
+        1 => {
+            let n = TelegramTx::new(&mut buf[off..]).send_short_confirmation().bytes_sent();
+            (n, Rec { kind: 1, da: 0, sa: 0, fc: 0, plen: 0, is_last: false })
+        }
+        _ => {
+            let (da, sa): (u8, u8) = (kani::any(), kani::any());
+            kani::assume(da <= 127 && sa <= 127);
+            let fc = any_function_code();
+            let h = crate::fdl::DataTelegramHeader { da, sa, dsap: None, ssap: None, fc };
+            let n = TelegramTx::new(&mut buf[off..]).send_data_telegram(h, 0, |_| ()).bytes_sent();
+            (n, Rec { kind: 2, da, sa, fc: fc.to_byte(), plen: 0, is_last: false })
+        }
+    }
+}
+
+/// Two telegrams from the real encoder, delivered in two chunks cut at an arbitrary position,
+/// with an arbitrary choice of helper after the first chunk: both telegrams arrive, in order,
+/// once each.
+#[kani::proof]
+#[kani::unwind(14)]
+fn c16_chunked_stream_q() {
+    let mut stream = [0u8; 12];
+    let (n1, r1) = emit(&mut stream, 0);
+    let (n2, r2) = emit(&mut stream, n1);
+    let total = n1 + n2;
+    let cut: usize = kani::any();
+    kani::assume(cut <= total);
+    let mut phy = KPhy::<12, 4>::idle_with(stream, cut);
+    let now = crate::time::Instant::ZERO;
+
+    let mut got = [NOREC; 4];
+    let mut ngot = 0usize;
+    // first delivery: bytes [0, cut)
+    let off_before = phy.rx_off;
+    if kani::any() {
+        phy.receive_telegram(now, |t| {
+            if ngot < 4 {
+                got[ngot] = rec_of(&t, false);
+            }
+            ngot += 1;
+        });
+    } else {
+        phy.receive_all_telegrams(now, |t, _| {
+            if ngot < 4 {
+                got[ngot] = rec_of(&t, false);
+            }
+            ngot += 1;
+        });
+    }
+    if ngot == 0 {
+        assert!(phy.rx_off == off_before, "C16/no-loss: no byte of a still incomplete telegram is dropped");
+    }
+    // second delivery: the rest has arrived
+    phy.rx_len = total;
+    let mut last_flag = false;
+    phy.receive_all_telegrams(now, |t, is_last| {
+        if ngot < 4 {
+            got[ngot] = rec_of(&t, false);
+        }
+        ngot += 1;
+        last_flag = is_last;
+    });
+    assert!(ngot == 2 && got[0] == r1 && got[1] == r2, "C16/chunking: the telegrams of the stream are received in order, each once, wherever the stream was cut");
+    assert!(phy.rx_off == total && last_flag, "C16/chunking: the buffer is empty afterwards and the final telegram was flagged last");
+    kani::cover!(cut > 0 && cut < n1, "cover: cut inside the first telegram");
+    kani::cover!(cut > n1 && cut < total, "cover: cut inside the second telegram");
+    kani::cover!(r1.kind == 2 && r2.kind == 0, "cover: data telegram followed by a token");
+}
+
+/// After undecodable data was discarded, a telegram arriving separately is received correctly.
+#[kani::proof]
+#[kani::unwind(14)]
+fn c16_garbage_then_telegram_q() {
+    let mut buf: [u8; 12] = kani::any();
+    let glen: usize = kani::any();
+    kani::assume(glen >= 1 && glen <= 6);
+    kani::assume(matches!(Telegram::deserialize(&buf[..glen]), Some(Err(()))));
+    let mut phy = KPhy::<12, 4>::idle_with(buf, glen);
+    let now = crate::time::Instant::ZERO;
+    let mut calls = 0;
+    phy.receive_all_telegrams(now, |_, _| calls += 1);
+    assert!(calls == 0 && phy.rx_off == glen, "C16/discard: undecodable data is discarded entirely");
+    // the next telegram arrives on its own
+    let (n, r) = emit(&mut buf, glen);
+    phy.rx = buf;
+    phy.rx_len = glen + n;
+    let mut got = NOREC;
+    let res = phy.receive_all_telegrams(now, |t, is_last| {
+        got = rec_of(&t, is_last);
+        calls += 1;
+    });
+    assert!(calls == 1 && res.is_some() && got == Rec { is_last: true, ..r }, "C16/recover: after discarding garbage the next telegram is received correctly");
+    kani::cover!(r.kind == 2, "cover: data telegram after garbage");
+}
